@@ -42,6 +42,8 @@ type Task struct {
 	condName string
 	goid     uint64
 	steps    int
+	consec   int
+	rotated  bool
 }
 
 // Action is an environment step the world offers to the scheduler.
@@ -332,7 +334,17 @@ func (s *Sim) yield(t *Task, site int) {
 	t.steps++
 	if atomic.LoadInt32(&s.stopping) == 0 && s.current == t {
 		if s.fair {
-			s.Stats.InlineKeeps++
+			// fair mode runs a task until it blocks, but a task that keeps reaching scheduling
+			// points without ever blocking (a spin-wait on something another task must do) is
+			// rotated out after a while
+			t.consec++
+			if t.consec < 64 {
+				s.Stats.InlineKeeps++
+				return
+			}
+			t.consec = 0
+			t.rotated = true
+			t.park(stReady)
 			return
 		}
 		if s.Stats.Decisions < s.opts.MaxDecisions {
@@ -534,10 +546,14 @@ func (s *Sim) decideFair(ready []*Task, acts []Action) {
 	if len(ready) > 0 {
 		// continue the current task if it is ready, else round-robin by id
 		for _, t := range ready {
-			if t == s.current {
+			if t == s.current && !t.rotated {
 				s.release(t)
 				return
 			}
+		}
+		if c := s.current; c != nil && c.rotated {
+			c.rotated = false
+			s.rr = c.ID
 		}
 		sort.Slice(ready, func(i, j int) bool { return ready[i].ID < ready[j].ID })
 		pick := ready[0]
